@@ -52,6 +52,10 @@ def run(ctx, rep):
         check_line_recogniser(ctx, BQ, info, rb2, rb2, rb2, only={"canon", "capture", "groups"})
     r9 = rep.rule("index", "governing index = last tempo event at or before the tick (guards + scan, C11)", floor=3)
     T.check_index(r9, r9)
+    rrf = rep.rule("resolution-field", "the resolution every tick-to-time conversion and tick distance uses is the integer written on "
+                                       "the [Song] Resolution line (converter int, digits-only capture)", floor=3)
+    from .C15 import check_resolution_field
+    check_resolution_field(ctx, rrf)
     rch = rep.rule("chain", "file -> lines (read().splitlines(), utf-8-sig) -> framing -> section route -> dispatcher -> builders: every link "
                             "hands the lines on unchanged", floor=10)
     from .chain import check_chain
